@@ -501,6 +501,7 @@ func genRobust(prop, tier string, r *rng) {
 	if prop == "C08" {
 		genRpmGuard(tier, r)
 		genJksGuard(tier, r)
+		genPgpFrames(tier, r)
 	}
 	if prop == "C01" {
 		// the same inputs through the real binary (16 at a time); quick: the constructed inputs and every 8th fixture mutant
